@@ -5,3 +5,12 @@ chk("C11", "exploration", "differential runtime monitor: db.Equals/db.Search vs 
 chk("C01", "exploration", "differential reference-model monitor: DB.Select / Table.Scan vs real SQLite over a generated database corpus",
     "Every table of every generated database (8 page sizes, depth 1..3 quick / 1..4 thorough, overflow chains, fragmented/vacuumed/auto-vacuum files, WITHOUT ROWID, ALTER-grown tables) x several column lists is compared row by row with SQLite. Held on the databases generated for the seed; not a proof over all files.",
     "SQLite 3.40.1 is the reference; integral REAL may surface as integer", "DESIGN.md 3 C01")
+chk("C04", "exploration", "reference-model monitor: SelectRowid/Table.Rowid/PKSelect probes chosen structurally (separators, leaf boundaries) vs SQLite rowid map",
+    "Every present rowid (sampled on the largest tables in quick tier), both neighbours, int64 extremes, and every separator / leaf-boundary rowid located by an independent page walker, at tree depth 1..3 (quick) / 1..4 (thorough). Held on the probes made.",
+    "SQLite 3.40.1 is the reference; the walker only selects probes", "DESIGN.md 3 C04")
+chk("C02", "exploration", "differential reference-model monitor: IndexedSelect vs SQLite ORDER BY built from PRAGMA index_xinfo",
+    "Every index sqlittle lists on every corpus table (multi-column, COLLATE, DESC, UNIQUE, partial, expression, automatic, WITHOUT ROWID secondaries, spilled payloads, depth 1..3/4) is compared row by row with SQLite's ordering. Held on the generated corpus.",
+    "SQLite 3.40.1 is the reference; partial WHERE / expression text from the generator", "DESIGN.md 3 C02")
+chk("C03", "exploration", "differential reference-model monitor: IndexedSelectEq/PKSelect vs SQLite WHERE (+k) COLLATE c IS ? over stored keys and their neighbours",
+    "Thousands of equality lookups per run: every prefix length, stored keys and single-column mutations across storage classes and collation-sensitive variants, incl. 2^53/2^63 neighbours. Held on the lookups made.",
+    "SQLite 3.40.1 is the reference; unary + removes affinity so comparison is by storage class", "DESIGN.md 3 C03")
